@@ -1,6 +1,7 @@
 #!/venv/bin/python
 """tools/register_seed.py <src dir> <seed id> <Cxx> "<needs>"  : run try_seed and store the seeded change under seeded/<id>/"""
-import json, shutil, subprocess, sys
+import json, os, shutil, subprocess, sys
+REPO = os.environ.get("VERIF_REPO", "/repo")
 from pathlib import Path
 V = Path(__file__).resolve().parent.parent
 src, sid, pid, needs = Path(sys.argv[1]), sys.argv[2], sys.argv[3], sys.argv[4]
@@ -10,7 +11,7 @@ for f in ("patch.diff", "demo.py", "notes.txt"):
     if (src / f).exists():
         shutil.copy(src / f, out / f)
 # demo on the pristine tree must pass
-d0 = subprocess.run(["/venv/bin/python", str(out / "demo.py")], capture_output=True, text=True, cwd="/repo", timeout=900).returncode
+d0 = subprocess.run(["/venv/bin/python", str(out / "demo.py")], capture_output=True, text=True, cwd=REPO, env=dict(os.environ, PYTHONPATH=REPO + "/src"), timeout=900).returncode
 r = subprocess.run([str(V / "tools" / "try_seed.py"), str(out), pid], capture_output=True, text=True, timeout=7200)
 res = json.loads(r.stdout[r.stdout.index("{"):]) if "{" in r.stdout else {"error": r.stdout[-500:] + r.stderr[-500:]}
 meta = {"property": pid, "needs_to_manifest": needs, "origin": "fresh sub-agent given only the property text and a scratch worktree",
